@@ -39,6 +39,9 @@ type Scenario struct {
 	Authority string `json:"authority"`      // ipv4 | ipv6 | host | host-noport
 	User      string `json:"user,omitempty"` // as written in the URL (escaped)
 	Pass      string `json:"pass,omitempty"`
+	// PassOnly: the user-info is ":password@" - an empty user name. Nobody asks for credentials in
+	// these runs; the password must still never show up in a request line.
+	PassOnly  bool   `json:"pass_only,omitempty"`
 	UserDec   string `json:"user_dec,omitempty"`
 	PassDec   string `json:"pass_dec,omitempty"`
 	Segs      []Seg  `json:"segs"`
@@ -167,6 +170,12 @@ func gen(seed uint64, tier string) Scenario {
 	if r.Bool(0.4) {
 		c := credentials[r.Intn(len(credentials))]
 		sc.User, sc.Pass, sc.UserDec, sc.PassDec = c[0], c[1], c[2], c[3]
+	}
+	// ":secret@host": an empty user name with a password (hash-derived so that no other choice moves)
+	if x := core.HS(seed, "c20.passonly", "", 0); x%100 < 8 {
+		sc.User, sc.UserDec = "", ""
+		sc.Pass, sc.PassDec = "s3cr3tPw", "s3cr3tPw"
+		sc.PassOnly = true
 	}
 	ns := r.Range(1, 4)
 	if r.Bool(0.4) {
@@ -317,7 +326,7 @@ func (sc *Scenario) urlNoCreds() string {
 func (sc *Scenario) url() string {
 	auth, _, _, _ := sc.hostPort()
 	u := "rtsp://"
-	if sc.User != "" {
+	if sc.User != "" || sc.PassOnly {
 		u += sc.User
 		if sc.Pass != "" {
 			u += ":" + sc.Pass
@@ -373,8 +382,8 @@ func shrink(sc Scenario) []Scenario {
 			add(func(c *Scenario) { c.Query = "a=1" })
 		}
 	}
-	if sc.User != "" {
-		add(func(c *Scenario) { c.User, c.Pass, c.UserDec, c.PassDec = "", "", "", "" })
+	if sc.User != "" || sc.PassOnly {
+		add(func(c *Scenario) { c.User, c.Pass, c.UserDec, c.PassDec, c.PassOnly = "", "", "", "", false })
 	}
 	if sc.Authority != "ipv4" {
 		add(func(c *Scenario) { c.Authority = "ipv4" })
